@@ -2269,13 +2269,20 @@ class Scene:
 
                 curr_control_val = curr_control_state.get(control_name, 0.0)
 
+                # A deflection distribution is shifted as a whole
+                if isinstance(curr_control_val, np.ndarray): # Column 0 is the span location
+                    step = np.zeros_like(curr_control_val)
+                    step[:,1] = dtheta
+                else:
+                    step = dtheta
+
                 #Perturb forward
-                pert_control_state[control_name] = curr_control_val + dtheta
+                pert_control_state[control_name] = curr_control_val + step
                 aircraft_object.set_control_state(control_state=pert_control_state)
                 FM_fwd = self.solve_forces(dimensional=False, **kwargs)
 
                 #Perturb backward
-                pert_control_state[control_name] = curr_control_val - dtheta
+                pert_control_state[control_name] = curr_control_val - step
                 aircraft_object.set_control_state(control_state=pert_control_state)
                 FM_bwd = self.solve_forces(dimensional=False, **kwargs)
 
